@@ -23,3 +23,38 @@ def spec_T00(tier):
             "bounds": {"slice lengths": "0..%d each" % n},
             "reach": {"zzH_lcp": ["lcp-done"]},
             "explanation": "engine self-test"}
+
+
+DEC_OPS = ["decWriteByte", "decWrite", "decWriteMatch", "decRead", "decWriteTo", "decReset", "decWriteBlock", "decRejectOne"]
+
+
+def dec_jobs(tier, ops=DEC_OPS):
+    P, PB, LP, NL = (5, 7, 4, 3) if tier == "quick" else (8, 10, 6, 4)
+    P2, PB2, NL2 = (3, 4, 2) if tier == "quick" else (4, 6, 3)
+    base = {"P": P, "PB": PB, "LP": LP, "NS": 1, "NL": NL}
+    two = {"P": P2, "PB": PB2, "LP": LP, "NS": 2, "NL": NL2}
+    jobs = []
+    for op in ops:
+        if op == "decWriteBlock":
+            for ld in range(P + 1):
+                for ns in range(2):
+                    jobs.append(J("%s-ld%d-ns%d" % (op, ld, ns), "zzH_" + op, params=dict(base, ld=ld, ns=ns)))
+            for ld in range(P2 + 1):
+                for nl in range(NL2 + 1):
+                    jobs.append(J("%s-two-ld%d-nl%d" % (op, ld, nl), "zzH_" + op, params=dict(two, ld=ld, ns=2, nl=nl)))
+        elif op in ("decWriteMatch", "decWrite"):
+            for ld in range(P + 1):
+                jobs.append(J("%s-ld%d" % (op, ld), "zzH_" + op, params=dict(base, ld=ld)))
+        else:
+            jobs.append(J(op, "zzH_" + op, params=base))
+    bounds = {"len(Data), cap(Data)": "0..%d (every pair len<=cap)" % P, "BufferSize": "1..%d" % PB, "WindowSize": "0..BufferSize-1",
+              "Write/Read slice": "0..%d bytes" % LP,
+              "block": "0..1 sequences with LitLen/MatchLen/Offset/Aux over all of uint32 and 0..%d literal bytes; "
+                       "2 sequences with 0..%d literals for len/cap<=%d, BufferSize<=%d" % (NL, NL2, P2, PB2),
+              "R": "0..len(Data)", "Off": "len(Data)..2^40", "operations": "one call from an arbitrary state satisfying the invariant (inductive step)"}
+    return jobs, bounds
+
+
+def spec_C04(tier):
+    jobs, bounds = dec_jobs(tier)
+    return {"jobs": jobs, "bounds": bounds}
